@@ -455,13 +455,17 @@ func registerRaceTour(res *core.Result, r *core.RNG) (*sim, error) {
 	}
 	status := make([]int, n)
 	var wg sync.WaitGroup
+	start := make(chan struct{})
 	for i := 0; i < n; i++ {
 		wg.Add(1)
 		go func(i int) {
 			defer wg.Done()
+			<-start
 			status[i] = s.w.Raw("POST", "/api/v1/register-gca", bodies[i]).Status
 		}(i)
 	}
+	time.Sleep(2 * time.Millisecond) // every sender is parked on the barrier
+	close(start)
 	wg.Wait()
 	wins := 0
 	win := -1
